@@ -520,6 +520,7 @@ func corruptionMenu() []string {
 }
 
 func runC11(r *core.Run) {
+	racePass(r, "race-formats", "all five codecs: readers each on their own stream (whole and in 7-byte reads, every corpus file), Write on shared records into separate destinations, File on one shared path; every result is compared with what the same call returned when it ran alone")
 	var bounds []string
 	for _, f := range c11Formats {
 		bounds = append(bounds, fmt.Sprintf("%s: alphabet %q, all strings of length 0..%d", f.name, f.alphabet, core.Pick(r, f.lq, f.lt)))
